@@ -653,6 +653,19 @@ func (s *Store) Open() (retErr error) {
 			return nil
 		}
 
+		// The database file is only known to match the snapshot it was fingerprinted
+		// for. If that is not the newest snapshot in the store -- the node stopped after
+		// the fingerprint was written but before the snapshot became visible, or a
+		// snapshot was installed but not yet restored -- the file must not be reused,
+		// because the Raft log will be replayed from the newest snapshot's index.
+		if fp.HasSnapshot() {
+			li, tm, err := snapshotStore.LatestIndexTerm()
+			if err != nil || li != fp.SnapshotIndex || tm != fp.SnapshotTerm {
+				s.logger.Printf("clean snapshot was taken for a snapshot other than the newest, full restore needed")
+				return nil
+			}
+		}
+
 		// The SQLite file is probably OK, so let's proceed. However we need to
 		// verify its checksum matches what we recorded at snapshot time. This is done
 		// asynchronously so as not to block startup. Writes will go into the WAL in
@@ -2685,7 +2698,6 @@ func (s *Store) fsmSnapshot() (fSnap raft.FSMSnapshot, retErr error) {
 	}()
 
 	var fsmSnapshot raft.FSMSnapshot
-	finalizer := s.createSnapshotFingerprint
 	if dueNext.IsFull() {
 		// We need to start the snapshoting process over again, starting with a full copy of the SQLite
 		// database. This happens when a node is snapshotting for the very first time, or in certain
@@ -2787,7 +2799,6 @@ func (s *Store) fsmSnapshot() (fSnap raft.FSMSnapshot, retErr error) {
 	fs := FSMSnapshot{
 		Type:        dueNext,
 		FSMSnapshot: fsmSnapshot,
-		Finalizer:   finalizer,
 		OnRelease: func(invoked, succeeded bool) {
 			if !invoked {
 				s.logger.Printf("persisting %s snapshot was not invoked on node ID %s", dueNext, s.raftID)
@@ -2809,6 +2820,10 @@ func (s *Store) fsmSnapshot() (fSnap raft.FSMSnapshot, retErr error) {
 				}
 			}
 		},
+	}
+	fs.Finalizer = func() error {
+		// Record which snapshot the database file is being fingerprinted for.
+		return s.createSnapshotFingerprint(fs.sinkIndex, fs.sinkTerm)
 	}
 	if dueNext.IsFull() || s.logIncremental() {
 		s.logger.Printf("%s snapshot created in %s on node ID %s", dueNext, dur, s.raftID)
@@ -2864,8 +2879,12 @@ func (s *Store) fsmRestore(rc io.ReadCloser) (retErr error) {
 		return fmt.Errorf("error swapping database file: %v", err)
 	}
 	s.logger.Printf("successfully opened database at %s due to restore", s.db.Path())
+	li, tm, err := snapshot.LatestIndexTerm(s.snapshotDir)
+	if err != nil {
+		return fmt.Errorf("failed to get latest snapshot index post restore: %s", err)
+	}
 	// Installed SQLite database is safe for fast restarts again.
-	if err := s.createSnapshotFingerprint(); err != nil {
+	if err := s.createSnapshotFingerprint(li, tm); err != nil {
 		return fmt.Errorf("failed to create snapshot fingerprint post restore: %s", err)
 	}
 
@@ -2874,10 +2893,6 @@ func (s *Store) fsmRestore(rc io.ReadCloser) (retErr error) {
 	// same value, since the last index is not necessarily a database-changing index,
 	// but that is OK. Worse that can happen is that anything paying attention to the
 	// index might consider the database to be changed when it is not, *logically* speaking.
-	li, tm, err := snapshot.LatestIndexTerm(s.snapshotDir)
-	if err != nil {
-		return fmt.Errorf("failed to get latest snapshot index post restore: %s", err)
-	}
 	s.fsmIdx.Store(li)
 	s.fsmTarget.Signal(li)
 	s.fsmTerm.Store(tm)
@@ -3119,7 +3134,9 @@ func (s *Store) selfLeaderChange(leader bool) {
 	}
 }
 
-func (s *Store) createSnapshotFingerprint() error {
+// createSnapshotFingerprint writes the fingerprint of the database file, recording
+// the index and term of the snapshot the file corresponds to (zero if unknown).
+func (s *Store) createSnapshotFingerprint(index, term uint64) error {
 	tmpFP := s.cleanSnapshotPath + ".tmp"
 	defer os.Remove(tmpFP)
 	mt, err := s.db.DBLastModified()
@@ -3138,9 +3155,11 @@ func (s *Store) createSnapshotFingerprint() error {
 	stats.Get(snapshotCRC32CreateDuration).(*expvar.Int).Set(dur.Milliseconds())
 
 	fp := &FileFingerprint{
-		ModTime: mt,
-		Size:    sz,
-		CRC32:   sum,
+		ModTime:       mt,
+		Size:          sz,
+		CRC32:         sum,
+		SnapshotIndex: index,
+		SnapshotTerm:  term,
 	}
 	if err := fp.WriteToFile(tmpFP); err != nil {
 		return fmt.Errorf("failed to write snapshot fingerprint to temp file: %s", err)
